@@ -11,14 +11,26 @@
   arclength of the pieces of `split(t)` adds up, all quadratics) and `quad_length_additive` (the
   code's `length` is exactly additive when all three segments are in the closed-form branch).
 
+  The model is that of /repo 7d678f98 (`sqrt(a+b+c)` computed as `|to − ctrl|`, `2a+b` as
+  `2 d2·(to − ctrl)`, sharp-turn test `b·a^(-1/2) + 2√c ≤ EPSILON·2√c` relative to the size of the
+  curve, guarded logarithm `num > 0`, quadrature on differences, `a ≤ 1e-4·c`).  Over ℝ the new
+  operands are the old ones (`quad_len_d3_sq`, `quad_len_d23`: ring identities) and the guard
+  `num > 0` is implied by the sharp-turn test (`closedForm_num_pos`), so `ClosedFormBranch` has no
+  extra hypothesis.  What the fix newly guarantees, over any ordered field with `sqrt` a parameter:
+  `quad_length_point` (a point has length 0), `quad_length_additive_ends` (additive over `split(0)`
+  and `split(1)` for EVERY quadratic), `lengthStraight_translate` / `quad_length_translate` (the
+  result depends on differences of the control points only).
+
   What is NOT proved (named gaps, covered by the oracle's tolerance only):
-  * the "almost straight" branch (`a < 1e-4·c`) is a 3-point Gauss–Legendre quadrature — an
-    approximation by design, no exact statement exists;
-  * the "sharp turn" branch (`b·a^(-1/2) + 2√c < EPSILON`) drops the logarithmic term; that is exact
-    only at a true cusp (`4ac = b²`), otherwise an `O(EPSILON)` approximation;
+  * the "almost straight" branch (`a ≤ 1e-4·c`) is a 3-point Gauss–Legendre quadrature — an
+    approximation by design, no exact statement exists (beyond the point curve);
+  * the "sharp turn" branch (`b·a^(-1/2) + 2√c ≤ EPSILON·2√c`) drops the logarithmic term; that is
+    exact only at a true cusp (`4ac = b²`), otherwise an `O(EPSILON)` relative approximation;
   * `a = 0` (degree-one parameterisation) is excluded by `ClosedFormBranch` (`a^(-1/2)` is taken);
+    with `FlatConst.value 1 4 > 0` such a curve is in the quadrature branch anyway;
   * cubic / arc `approximate_length` are sums over an approximation and have no exact counterpart;
-  * IEEE rounding (e.g. `a+b+c` cancelling to a negative number → NaN) is outside the theorems.
+  * IEEE rounding, overflow and underflow are outside the theorems (open finding
+    C10-quad-length-underflow: `4ca − b²` underflows in f32 for curves smaller than ~5e-8).
 
   Everything is stated about the model `def`s of `Model/Geom/{Basic,Length}.lean` instantiated at
   `ℝ` (the same `def`s the driver runs at `Float32`/`Float` and compares bit-for-bit with lyon).
@@ -139,33 +151,69 @@ theorem quad_len_disc (q : Quad ℝ) : q.lenB * q.lenB ≤ 4 * q.lenA * q.lenC :
   nlinarith [mul_self_nonneg (q.lenD2.cross q.lenD1)]
 
 /-- The code takes the closed-form branch with the logarithm: not "almost straight", a genuine
-parabola (`a > 0`), and not a "sharp turn" (`b·a^(-1/2) + 2√c ≥ EPSILON`). -/
+parabola (`a > 0`), and not a "sharp turn" (`b·a^(-1/2) + 2√c > EPSILON·2√c`, the test is relative
+to the size of the curve).  The other half of the code's test, `num > 0`, is not a hypothesis: it
+follows (`closedForm_num_pos`). -/
 def ClosedFormBranch (q : Quad ℝ) : Prop :=
-  q.almostStraight = false ∧ 0 < q.lenA ∧ FlatConst.epsilon ≤ q.lenB * (√q.lenA)⁻¹ + 2 * √q.lenC
+  q.almostStraight = false ∧ 0 < q.lenA ∧
+    FlatConst.epsilon * (2 * √q.lenC) < q.lenB * (√q.lenA)⁻¹ + 2 * √q.lenC
 
-/-- the closed form on coefficients is `qF 1 − qF 0` for the primitive `qF` of `Lemmas/ArcLength.lean` -/
-theorem lengthClosed_eq_primitive (hT : IsRealTransc) {a b c : ℝ} (ha : 0 < a) (hD : b * b ≤ 4 * a * c)
-    (hε : 0 < (FlatConst.epsilon : ℝ)) (hns : FlatConst.epsilon ≤ b * (√a)⁻¹ + 2 * √c) :
-    Quad.lengthClosed a b c = qF a b c 1 - qF a b c 0 := by
+/-- bridge to the code's cancellation-free operands: `|to − ctrl|² = a + b + c` -/
+theorem quad_len_d3_sq (q : Quad ℝ) : q.lenD3.sqLen = q.lenA + q.lenB + q.lenC := by
+  simp only [geom]; ring
+
+/-- bridge: `2 d2·(to − ctrl) = 2a + b` -/
+theorem quad_len_d23 (q : Quad ℝ) : 2 * q.lenD2.dot q.lenD3 = 2 * q.lenA + q.lenB := by
+  simp only [geom]; ring
+
+/-- `sqr_abc = d3.length()` is `√(a + b + c)` -/
+theorem quad_len_d3_len (hT : IsRealTransc) (q : Quad ℝ) : q.lenD3.len = √(q.lenA + q.lenB + q.lenC) := by
+  rw [P.len, hT.sqrt_eq, quad_len_d3_sq]
+
+/-- the logarithm's numerator `num = 2 d2·d3 / √a + 2|d3|` is `qG 1 / √a`, positive as soon as the
+"not a sharp turn" quantity `qG 0 / √a` is -/
+theorem closedForm_num_pos {a b c e : ℝ} (ha : 0 < a) (hD : b * b ≤ 4 * a * c)
+    (h0 : 0 < b * (√a)⁻¹ + 2 * √c) (he : 2 * e = 2 * a + b) :
+    0 < 2 * e * (√a)⁻¹ + 2 * √(a + b + c) := by
+  have hr : 0 < √a := Real.sqrt_pos.mpr ha
+  have hG0 : qG a b c 0 = √a * (b * (√a)⁻¹ + 2 * √c) := by
+    simp only [qG, qP, qdP]; field_simp; ring_nf
+  have hG1 : qG a b c 1 = √a * (2 * e * (√a)⁻¹ + 2 * √(a + b + c)) := by
+    rw [he]; simp only [qG, qP, qdP]; field_simp; ring_nf
+  have hG1pos : 0 < qG a b c 1 := G_pos ha hD (by rw [hG0]; exact mul_pos hr h0) zero_le_one
+  rw [hG1] at hG1pos
+  exact (mul_pos_iff_of_pos_left hr).mp hG1pos
+
+/-- the closed form on coefficients is `qF 1 − qF 0` for the primitive `qF` of `Lemmas/ArcLength.lean`;
+`s`, `e` are the code's cancellation-free operands `|to − ctrl|` and `d2·(to − ctrl)` -/
+theorem lengthClosed_eq_primitive (hT : IsRealTransc) {a b c s e : ℝ} (ha : 0 < a) (hD : b * b ≤ 4 * a * c)
+    (hε : 0 ≤ (FlatConst.epsilon : ℝ)) (hns : FlatConst.epsilon * (2 * √c) < b * (√a)⁻¹ + 2 * √c)
+    (hs : s = √(a + b + c)) (he : 2 * e = 2 * a + b) :
+    Quad.lengthClosed a b c s e = qF a b c 1 - qF a b c 0 := by
+  subst hs
   have h5 : ((5:ℝ) / 10 ^ 1) = 1 / 2 := by norm_num
   have hr : 0 < √a := Real.sqrt_pos.mpr ha
   have hrr : √a * √a = a := Real.mul_self_sqrt ha.le
-  have hbr : ¬ (b * (√a)⁻¹ + 2 * √c < FlatConst.epsilon) := not_lt.mpr hns
+  have hG0pos : 0 < b * (√a)⁻¹ + 2 * √c :=
+    lt_of_le_of_lt (mul_nonneg hε (mul_nonneg (by norm_num) (Real.sqrt_nonneg c))) hns
+  have hnum : 0 < 2 * e * (√a)⁻¹ + 2 * √(a + b + c) := closedForm_num_pos ha hD hG0pos he
+  have hbr : ¬ (b * (√a)⁻¹ + 2 * √c ≤ FlatConst.epsilon * (2 * √c)
+      ∨ ¬ (0 < 2 * e * (√a)⁻¹ + 2 * √(a + b + c))) :=
+    not_or.mpr ⟨not_le.mpr hns, not_not.mpr hnum⟩
   have hP0 : qP a b c 0 = c := by simp [qP]
   have hP1 : qP a b c 1 = a + b + c := by simp [qP]
   have hd0 : qdP a b 0 = b := by simp [qdP]
   have hd1 : qdP a b 1 = 2 * a + b := by simp [qdP]
   have hG0 : qG a b c 0 = √a * (b * (√a)⁻¹ + 2 * √c) := by
     rw [qG, hP0, hd0]; field_simp; ring
-  have hG0pos : 0 < b * (√a)⁻¹ + 2 * √c := lt_of_lt_of_le hε hns
   have hG0pos' : 0 < qG a b c 0 := by rw [hG0]; exact mul_pos hr hG0pos
-  have hG1 : qG a b c 1 = √a * ((2 * a + b) * (√a)⁻¹ + 2 * √(a + b + c)) := by
-    rw [qG, hP1, hd1]; field_simp; ring
+  have hG1 : qG a b c 1 = √a * (2 * e * (√a)⁻¹ + 2 * √(a + b + c)) := by
+    rw [qG, hP1, hd1, he]; field_simp; ring
   have hG1pos' : 0 < qG a b c 1 := G_pos ha hD hG0pos' zero_le_one
-  have hlog : Real.log (((2 * a + b) * (√a)⁻¹ + 2 * √(a + b + c)) / (b * (√a)⁻¹ + 2 * √c))
+  have hlog : Real.log ((2 * e * (√a)⁻¹ + 2 * √(a + b + c)) / (b * (√a)⁻¹ + 2 * √c))
       = Real.log (qG a b c 1) - Real.log (qG a b c 0) := by
     rw [← Real.log_div hG1pos'.ne' hG0pos'.ne', hG0, hG1, mul_div_mul_left _ _ hr.ne']
-  simp only [Quad.lengthClosed, geom, hT.sqrt_eq, hT.pow_eq, hT.ln_eq, Nat.cast_ofNat, h5,
+  simp only [Quad.lengthClosed, geom, hT.sqrt_eq, hT.pow_eq, hT.ln_eq, Nat.cast_ofNat, Nat.cast_zero, h5,
     rpow_neg_half ha, if_neg hbr]
   rw [hlog, qF, qF, hP0, hP1, hd0, hd1]
   generalize Real.log (qG a b c 1) = L1
@@ -179,23 +227,25 @@ theorem lengthClosed_eq_primitive (hT : IsRealTransc) {a b c : ℝ} (ha : 0 < a)
   ring
 
 /-- in the closed-form branch the code's "not a sharp turn" quantity is `qG 0 / √a`, so `qG > 0` on `[0, ∞)` -/
-theorem closedForm_G0_pos (q : Quad ℝ) (hε : 0 < (FlatConst.epsilon : ℝ)) (h : ClosedFormBranch q) :
+theorem closedForm_G0_pos (q : Quad ℝ) (hε : 0 ≤ (FlatConst.epsilon : ℝ)) (h : ClosedFormBranch q) :
     0 < qG q.lenA q.lenB q.lenC 0 := by
   obtain ⟨_, ha, hns⟩ := h
   have hr : 0 < √q.lenA := Real.sqrt_pos.mpr ha
   have e : qG q.lenA q.lenB q.lenC 0 = √q.lenA * (q.lenB * (√q.lenA)⁻¹ + 2 * √q.lenC) := by
     simp only [qG, qP, qdP]; field_simp; ring_nf
-  rw [e]; exact mul_pos hr (lt_of_lt_of_le hε hns)
+  rw [e]
+  exact mul_pos hr (lt_of_le_of_lt
+    (mul_nonneg hε (mul_nonneg (by norm_num) (Real.sqrt_nonneg q.lenC))) hns)
 
 /-- **The primitive used by the code differentiates to the speed** (algebraic core, independent of
 the integral): for `t ≥ 0`, `d/dt qF(a,b,c)(t) = |Q'(t)|`. -/
-theorem quad_primitive_hasDerivAt (q : Quad ℝ) (hε : 0 < (FlatConst.epsilon : ℝ)) (h : ClosedFormBranch q)
+theorem quad_primitive_hasDerivAt (q : Quad ℝ) (hε : 0 ≤ (FlatConst.epsilon : ℝ)) (h : ClosedFormBranch q)
     {t : ℝ} (ht : 0 ≤ t) : HasDerivAt (qF q.lenA q.lenB q.lenC) (speed q t) t := by
   rw [quad_speed_eq]
   exact hasDerivAt_F h.2.1 (quad_len_disc q) (G_pos h.2.1 (quad_len_disc q) (closedForm_G0_pos q hε h) ht)
 
 /-- exact arclength between non-negative parameters through the code's primitive -/
-theorem arclen_eq_primitive (q : Quad ℝ) (hε : 0 < (FlatConst.epsilon : ℝ)) (h : ClosedFormBranch q)
+theorem arclen_eq_primitive (q : Quad ℝ) (hε : 0 ≤ (FlatConst.epsilon : ℝ)) (h : ClosedFormBranch q)
     {x y : ℝ} (hx : 0 ≤ x) (hy : 0 ≤ y) :
     arclen q x y = qF q.lenA q.lenB q.lenC y - qF q.lenA q.lenB q.lenC x := by
   have e : (fun t => speed q t) = fun t => 2 * √(qP q.lenA q.lenB q.lenC t) := funext (quad_speed_eq q)
@@ -205,12 +255,13 @@ theorem arclen_eq_primitive (q : Quad ℝ) (hε : 0 < (FlatConst.epsilon : ℝ))
 /-- **`QuadraticBezierSegment::length` is the arclength**: whenever the code evaluates its closed
 form with the logarithm (`ClosedFormBranch`), the value it returns equals `∫₀¹ |Q'(t)| dt` — over ℝ,
 with `sqrt`/`powf`/`ln` the real functions. -/
-theorem quad_length_closed_form (hT : IsRealTransc) (q : Quad ℝ) (hε : 0 < (FlatConst.epsilon : ℝ))
+theorem quad_length_closed_form (hT : IsRealTransc) (q : Quad ℝ) (hε : 0 ≤ (FlatConst.epsilon : ℝ))
     (h : ClosedFormBranch q) : q.length = ∫ t in (0:ℝ)..1, speed q t := by
   have e := arclen_eq_primitive q hε h (le_refl 0) zero_le_one
   rw [arclen] at e
   rw [e, Quad.length, h.1]
-  exact lengthClosed_eq_primitive hT h.2.1 (quad_len_disc q) hε h.2.2
+  exact lengthClosed_eq_primitive hT h.2.1 (quad_len_disc q) hε h.2.2 (quad_len_d3_len hT q)
+    (quad_len_d23 q)
 
 /-! ### (iii) additivity of the length under splitting -/
 
@@ -264,7 +315,7 @@ theorem length_additive_of_integral (q : Quad ℝ) {t : ℝ} (h0 : 0 ≤ t) (h1 
 closed form, `QuadraticBezierSegment::length` is exactly additive over ℝ — the theorem behind the
 oracle clause `quad.length/additive` (whose tolerance then only has to cover rounding and the two
 approximate branches). -/
-theorem quad_length_additive (hT : IsRealTransc) (q : Quad ℝ) (hε : 0 < (FlatConst.epsilon : ℝ))
+theorem quad_length_additive (hT : IsRealTransc) (q : Quad ℝ) (hε : 0 ≤ (FlatConst.epsilon : ℝ))
     {t : ℝ} (h0 : 0 ≤ t) (h1 : t ≤ 1) (h : ClosedFormBranch q)
     (hl : ClosedFormBranch (q.split t).1) (hr : ClosedFormBranch (q.split t).2) :
     (q.split t).1.length + (q.split t).2.length = q.length := by
@@ -273,6 +324,81 @@ theorem quad_length_additive (hT : IsRealTransc) (q : Quad ℝ) (hε : 0 < (Flat
   exact length_additive_of_integral q h0 h1
 
 end
+
+/-! ### What /repo fix 7d678f98 newly guarantees: degenerate curves and position independence
+
+Over any ordered field, `sqrt` a parameter (the only law used: `sqrt 0 = 0`, for the point curve). -/
+
+section Degenerate
+variable {K : Type} [Field K] [LinearOrder K] [IsStrictOrderedRing K] [Transc K] [FlatConst K]
+
+/-- **A point has length zero** (`from = ctrl = to`): `a = c = 0` passes the test `a ≤ 1e-4·c`, the
+quadrature of three zero vectors is `3·sqrt 0`.  (Before the fix the closed form was taken:
+`0^(-1/2)·0`, NaN in floats.) -/
+theorem quad_length_point (h0 : Transc.sqrt (0:K) = 0) (p : P K) : (⟨p, p, p⟩ : Quad K).length = 0 := by
+  have hs : (⟨p, p, p⟩ : Quad K).almostStraight = true := by
+    simp only [Quad.almostStraight, decide_eq_true_eq, geom, Nat.cast_ofNat, sub_self, mul_zero,
+      add_zero]
+    ring_nf; exact le_refl _
+  rw [Quad.length, hs, if_pos rfl]
+  simp only [Quad.lengthStraight, P.len, geom, sub_self, zero_mul, mul_zero, add_zero, h0]
+
+/-- the first piece of `split(0)` and the second piece of `split(1)` are points, so (with
+`quad_length_point`) they have length zero … -/
+theorem quad_split_ends_are_points (q : Quad K) :
+    (q.split 0).1 = ⟨q.a, q.a, q.a⟩ ∧ (q.split 1).2 = ⟨q.b, q.b, q.b⟩ := by
+  constructor
+  · show (⟨q.a, q.a.lerp q.c 0, q.sample 0⟩ : Quad K) = _
+    congr 1 <;> geom_ring
+  · show (⟨q.sample 1, q.c.lerp q.b 1, q.b⟩ : Quad K) = _
+    congr 1 <;> geom_ring
+
+/-- … and the other piece is the whole curve: **`length` is additive over `split(0)` and
+`split(1)` for every quadratic**, in whichever branch it is evaluated (no `ClosedFormBranch`
+hypothesis; before the fix the point piece made the sum NaN in floats). -/
+theorem quad_length_additive_ends (h0 : Transc.sqrt (0:K) = 0) (q : Quad K) :
+    (q.split 0).1.length + (q.split 0).2.length = q.length ∧
+    (q.split 1).1.length + (q.split 1).2.length = q.length := by
+  have e0 : (q.split 0).2 = q := by
+    show (⟨q.sample 0, q.c.lerp q.b 0, q.b⟩ : Quad K) = _
+    cases q; congr 1 <;> geom_ring
+  have e1 : (q.split 1).1 = q := by
+    show (⟨q.a, q.a.lerp q.c 1, q.sample 1⟩ : Quad K) = _
+    cases q; congr 1 <;> geom_ring
+  rw [(quad_split_ends_are_points q).1, (quad_split_ends_are_points q).2, e0, e1,
+    quad_length_point h0, quad_length_point h0, zero_add, add_zero]
+  exact ⟨rfl, rfl⟩
+
+/-- `q` moved by the vector `v` -/
+noncomputable def translate (q : Quad K) (v : P K) : Quad K := ⟨q.a + v, q.c + v, q.b + v⟩
+
+/-- the code's operands are differences: they do not see the position of the curve -/
+theorem quad_len_operands_translate (q : Quad K) (v : P K) :
+    (translate q v).lenD1 = q.lenD1 ∧ (translate q v).lenD2 = q.lenD2 ∧
+    (translate q v).lenD3 = q.lenD3 ∧ (translate q v).b - (translate q v).a = q.b - q.a := by
+  refine ⟨?_, ?_, ?_, ?_⟩ <;> simp only [translate] <;> geom_ring
+
+/-- **The quadrature branch depends only on differences of the control points** (any `sqrt`):
+moving the curve does not change `lengthStraight`.  (Before the fix the weights
+`−0.492943519233745, 0.430331482911935, 0.0626120363218102` were applied to absolute positions; they
+do not sum to zero exactly, and in `f64` they are `f32`-rounded: the error grew with the distance
+from the origin.) -/
+theorem lengthStraight_translate (q : Quad K) (v : P K) :
+    (translate q v).lengthStraight = q.lengthStraight := by
+  obtain ⟨h1, _, h3, hc⟩ := quad_len_operands_translate q v
+  simp only [Quad.lengthStraight, h1, h3, hc]
+
+/-- the whole of `QuadraticBezierSegment::length` is translation invariant (all three branches) -/
+theorem quad_length_translate (q : Quad K) (v : P K) : (translate q v).length = q.length := by
+  obtain ⟨h1, h2, h3, _⟩ := quad_len_operands_translate q v
+  have hA : (translate q v).lenA = q.lenA := by rw [Quad.lenA, h2, Quad.lenA]
+  have hB : (translate q v).lenB = q.lenB := by rw [Quad.lenB, h1, h2, Quad.lenB]
+  have hC : (translate q v).lenC = q.lenC := by rw [Quad.lenC, h1, Quad.lenC]
+  have hS : (translate q v).almostStraight = q.almostStraight := by
+    rw [Quad.almostStraight, hA, hC, Quad.almostStraight]
+  rw [Quad.length, hS, lengthStraight_translate, hA, hB, hC, h2, h3, Quad.length]
+
+end Degenerate
 
 /-! ### Non-vacuity: the real instances and a concrete quadratic in the closed-form branch -/
 
@@ -306,7 +432,7 @@ end
 theorem realTransc_isReal : @IsRealTransc realTransc :=
   @IsRealTransc.mk realTransc (fun _ => rfl) (fun _ _ => rfl) (fun _ => rfl)
 
-/-- `from (0,0) ctrl (1,0) to (2,2)`: `a = 4`, `b = 0`, `c = 1`; not almost straight, `b/√a + 2√c = 2 ≥ 1e-4` -/
+/-- `from (0,0) ctrl (1,0) to (2,2)`: `a = 4`, `b = 0`, `c = 1`; not almost straight, `b/√a + 2√c = 2 > 1e-4·2√c` -/
 theorem closedFormBranch_example : @ClosedFormBranch realFlatConst ⟨⟨0, 0⟩, ⟨1, 0⟩, ⟨2, 2⟩⟩ := by
   let _ := realTransc; let _ := realFlatConst
   have h4 : √(4:ℝ) = 2 := by
@@ -315,17 +441,17 @@ theorem closedFormBranch_example : @ClosedFormBranch realFlatConst ⟨⟨0, 0⟩
   have hB : (⟨⟨0, 0⟩, ⟨1, 0⟩, ⟨2, 2⟩⟩ : Quad ℝ).lenB = 0 := by simp only [geom]; norm_num
   have hC : (⟨⟨0, 0⟩, ⟨1, 0⟩, ⟨2, 2⟩⟩ : Quad ℝ).lenC = 1 := by simp only [geom]; norm_num
   refine ⟨?_, ?_, ?_⟩
-  · simp only [Quad.almostStraight, hA, hC, decide_eq_false_iff_not, not_lt]
-    show (FlatConst.value 1 4 : ℝ) * 1 ≤ 4
-    show ((1:ℕ) : ℝ) / 10 ^ 4 * 1 ≤ 4
+  · simp only [Quad.almostStraight, hA, hC, decide_eq_false_iff_not, not_le]
+    show (FlatConst.value 1 4 : ℝ) * 1 < 4
+    show ((1:ℕ) : ℝ) / 10 ^ 4 * 1 < 4
     norm_num
   · rw [hA]; norm_num
   · rw [hA, hB, hC, h4, Real.sqrt_one]
-    show (1:ℝ) / 10 ^ 4 ≤ _
+    show (1:ℝ) / 10 ^ 4 * (2 * 1) < _
     norm_num
 
-theorem realFlatConst_eps_pos : (0:ℝ) < (@FlatConst.epsilon ℝ realFlatConst) := by
-  show (0:ℝ) < 1 / 10 ^ 4
+theorem realFlatConst_eps_pos : (0:ℝ) ≤ (@FlatConst.epsilon ℝ realFlatConst) := by
+  show (0:ℝ) ≤ 1 / 10 ^ 4
   norm_num
 
 /-- `quad_length_closed_form` instantiated: all hypotheses are satisfied by the real instances and
@@ -338,8 +464,11 @@ example : @Quad.length ℝ _ realTransc realFlatConst ⟨⟨0, 0⟩, ⟨1, 0⟩,
 /-- parameters in range for `arclen_split` / `length_additive_of_integral` / `quad_length_additive` -/
 example : (0:ℝ) ≤ 1/4 ∧ (1/4:ℝ) ≤ 1 := by norm_num
 
-section
-variable [Transc ℝ] [FlatConst ℝ]
-end
+/-- the hypothesis of `quad_length_point` / `quad_length_additive_ends` holds for the real `√` -/
+example : @Transc.sqrt ℝ realTransc 0 = 0 := Real.sqrt_zero
+
+/-- `quad_length_point` instantiated: the point `(3, 4)` has length `0` -/
+example : @Quad.length ℝ _ realTransc realFlatConst ⟨⟨3, 4⟩, ⟨3, 4⟩, ⟨3, 4⟩⟩ = 0 :=
+  @quad_length_point ℝ _ _ _ realTransc realFlatConst Real.sqrt_zero ⟨3, 4⟩
 
 end Lyon.C10
